@@ -73,9 +73,9 @@ var harnesses = []*harness{
 	{Name: "H5", File: "zz_gvc_h5_sorters_test.go", Pkg: "", StandIn: true, Props: []string{"C19", "C14"},
 		Funcs: regexp.MustCompile(`^\(\*MultiSorter\)\.(Less|Len|Swap|Sort)$|^OrderedBy$|^lemma C19\.|^var (ID|Port|LastNodeError)$|^(ID|Port|LastNodeError)$`),
 		Bound: "key lists of length <= 3 over ID/Port/LastNodeError; node lists of length <= 4 over a universe of 8 nodes"},
-	{Name: "H6", File: "zz_gvc_h6_errors_codec_test.go", Pkg: "", StandIn: true, Props: []string{"C02", "C06", "C07", "C08", "C13"},
-		Funcs: regexp.MustCompile(`^\(QuorumCallError\)\.(Is|Error)$|^WrapMessage$|^\(Codec\)\.|^\(\*Codec\)\.|^newMessage$|^NewCodec$`),
-		Bound: "4 causes x 4 targets; 4 handler errors; 18 codec round trips; 50 byte strings x 3 message kinds"},
+	{Name: "H6", File: "zz_gvc_h6_errors_codec_test.go", Pkg: "", StandIn: true, Props: []string{"C02", "C04", "C05", "C06", "C07", "C08", "C13"},
+		Funcs: regexp.MustCompile(`^\(QuorumCallError\)\.(Is|Error)$|^WrapMessage$|^SendMessage$|^\(Codec\)\.|^\(\*Codec\)\.|^newMessage$|^NewCodec$`),
+		Bound: "4 causes x 4 targets; 4 handler errors; 24 codec round trips; 50 byte strings x 3 message kinds; SendMessage over room/full/unbuffered channels x live/ended/ending contexts"},
 	{Name: "H2", File: "zz_gvc_h2_channel_test.go", Pkg: "",
 		Funcs: regexp.MustCompile(`^\(\*channel\)\.|^newChannel$|^\(\*RawNode\)\.(newContext|close)$`),
 		Bound: "one node; real sender and receiver over an in-memory stream; the scripted phases P1..P11, 5 rounds"},
